@@ -147,8 +147,10 @@ def run(ck, facts, tier):
                  sample="sort_keys dominates %d iterator constructions" % len(iters))
         for order, tgt in ORDER_OF.items():
             key = "nodes_into_order(->%s)" % order
-            ev = cel.Ev(facts, hooks={**hooks, "@elem": lambda cont: Tup([Poly.atom("k"), Sym("ctor", "F64", Poly.atom("v"))]) if isinstance(cont, Sym) and cont.tag[0] == "param" else None})
             nodes = Sym("param", "nodes")
+            sorted_nodes = Sym("mut", "sort_keys", cel.vkey(nodes), ())          # the map after `nodes.sort_keys()`: same entries, walked in date order
+            ev = cel.Ev(facts, hooks={**hooks, "@elem": lambda cont: Tup([Poly.atom("k"), Sym("ctor", "F64", Poly.atom("v"))])
+                                      if cel.vkey(cont) in (cel.vkey(nodes), cel.vkey(sorted_nodes)) else None})
             try:
                 res = ev.apply_fn(nio, [nodes, Sym("ctor", order), Sym("id")], 0)
             except Unsupported as e:
@@ -157,7 +159,7 @@ def run(ck, facts, tier):
             ok = isinstance(res, Sym) and res.tag[:2] == ("ctor", tgt) and isinstance(res.tag[2], Coll)
             if ok:
                 sk = res.tag[2].seq.key()
-                ok = sk[0] == "seq" and sk[1] == cel.vkey(nodes)
+                ok = sk[0] == "seq" and sk[1] in (cel.vkey(nodes), cel.vkey(sorted_nodes))
                 if ok and tgt != "F64":
                     n = Poly.atom(("len", Sym("m", "keys", cel.vkey(nodes), ()).key(), None))
                     tags = Sym("tags", cel.vkey(Sym("id")), n.key())
